@@ -85,13 +85,11 @@ class Variable(IUnifiable):
         self._is_bound = False
     def get_value(self):
         """if the variable is bound, return the bound value, otherwise return the variable
-        object itself. Will resolve the value recursively for variables that are bound to
-        another variable."""
+        object itself. Will resolve the value recursively, also for variables that occur
+        inside the bound value and were bound later."""
         if not self._is_bound:
             return self
-        if isinstance(self._value, Variable):
-            return self._value.get_value()
-        return self._value
+        return get_value(self._value)
     def to_python(self):
         v = self.get_value()
         if isinstance(v, Variable):
